@@ -109,7 +109,7 @@ Proof. unfold gen_back_off_exp_val. ring. Qed.
 Lemma gen_decimals_eq o n : gen_clamp (gen_decimals_exp o n) = Z.max 0 (- o + n - 1).
 Proof.
   unfold gen_clamp, gen_decimals_exp.
-  match goal with |- context [if ?b then _ else _] => destruct b eqn:E end; lia.
+  repeat match goal with |- context [if ?b then _ else _] => destruct b eqn:? end; lia.
 Qed.
 Lemma gen_snap_next_eq r : gen_snap_next r = (r + 1)%Z.
 Proof. unfold gen_snap_next. ring. Qed.
